@@ -218,8 +218,30 @@ def gen_level_code(level, var, mode, ind, uid):
         elif enc:
             L.append('%s{ auto %s = %s; gd::set_data(%s, tq.bytes()); }' % (ind, dv, call, dv))
         else:
-            L.append('%s{ auto %s = %s; gd::obs_data(out, pfx + "%s", %s); }' % (ind, dv, call, d['name'], dv))
+            L.append('%s{ auto %s = %s; gd::obs_data(out, pfx + "%s", %s, %s); }' % (
+                ind, dv, call, d['name'], dv, 'false' if use_c else 'true'))
     return L
+
+
+CPP_UINT = {'uint8': 'std::uint8_t', 'uint16': 'std::uint16_t', 'uint32': 'std::uint32_t', 'uint64': 'std::uint64_t'}
+
+
+def trait_param_types(level):
+    """parameter types of message_traits::size_bytes: one numInGroup type per group in
+    pre-order, then std::size_t if any data member exists anywhere"""
+    out = []
+    has_data = [False]
+
+    def walk(lv):
+        if lv['datas']:
+            has_data[0] = True
+        for g in lv['groups']:
+            out.append(CPP_UINT.get(g['dim']['numPrim'], 'std::uint64_t'))
+            walk(g['level'])
+    walk(level)
+    if has_data[0]:
+        out.append('std::size_t')
+    return out
 
 
 def counter():
@@ -241,7 +263,8 @@ def gen_driver(pkg, layout):
         cls = '::%s::messages::%s' % (pkg, n)
         uid = counter()
         for mode in ('ra', 'cur'):
-            src.append('static void dec_%s_%s(%s<char> m, std::vector<std::string>& out, gd::span buf) {' % (mode, n, cls))
+            extra = ', const std::vector<std::uint64_t>& targs' if mode == 'ra' else ''
+            src.append('static void dec_%s_%s(%s<char> m, std::vector<std::string>& out, gd::span buf%s) {' % (mode, n, cls, extra))
             src.append('  std::string pfx; (void)buf;')
             src.append('  { auto h = sbepp::get_header(m);')
             for lf in m['hdrLeaves']:
@@ -258,6 +281,11 @@ def gen_driver(pkg, layout):
                 src.append('  out.push_back("cursor=" + std::to_string(c.pointer() - buf.p));')
             else:
                 src.append('  out.push_back("size=" + std::to_string(sbepp::size_bytes(m)));')
+                ptypes = trait_param_types(m['level'])
+                src.append('  if(targs.size() == %d) {' % len(ptypes))
+                args = ', '.join('static_cast<%s>(targs[%d])' % (t, i) for i, t in enumerate(ptypes))
+                src.append('    out.push_back("trait=" + std::to_string(::sbepp::message_traits<::%s::schema::messages::%s>::size_bytes(%s)));' % (pkg, n, args))
+                src.append('  }')
             src.append('}')
         for mode in ('enc', 'enccur'):
             src.append('static std::size_t %s_%s(%s<char> m, gd::tokens& tq, gd::span buf) {' % (mode, n, cls))
@@ -275,7 +303,7 @@ def gen_driver(pkg, layout):
     for n in names:
         cls = '::%s::messages::%s' % (pkg, n)
         src.append('  {"%s", gd::entry{'
-                   '[](gd::span b, std::vector<std::string>& o){ dec_ra_%s(sbepp::make_view<%s>(b.p, b.n), o, b); },'
+                   '[](gd::span b, std::vector<std::string>& o, const std::vector<std::uint64_t>& a){ dec_ra_%s(sbepp::make_view<%s>(b.p, b.n), o, b, a); },'
                    '[](gd::span b, std::vector<std::string>& o){ dec_cur_%s(sbepp::make_view<%s>(b.p, b.n), o, b); },'
                    '[](gd::span b, gd::tokens& t){ return enc_%s(sbepp::make_view<%s>(b.p, b.n), t, b); },'
                    '[](gd::span b, gd::tokens& t){ return enccur_%s(sbepp::make_view<%s>(b.p, b.n), t, b); }}},' % (
